@@ -108,6 +108,11 @@ def ident(cname, a):
         return "not-array:" + type(a).__name__
     if a.shape != shape:
         return "shape" + str(a.shape)
+    if a.dtype == object:                    # e.g. the result of simplify() on a numeric pose: numbers held as objects
+        try:
+            a = a.astype(float)
+        except (TypeError, ValueError):
+            return "unreadable:object-dtype"
     try:
         v = float(SPEC[cname][1](a))
     except Exception as e:  # object arrays etc.
